@@ -72,10 +72,9 @@ Definition wf_prog_b (p : program) : bool :=
 Definition typed_entry (n : N) (c : const) : bool :=
   (cbits c =? ty n) && (1 <=? ty n) && (ty n <? USIZE) && inr_b (cbits c) (cval c).
 Definition typed_b (sc : scalars) : bool := forallb (fun kv => typed_entry (fst kv) (snd kv)) sc.
-(* bytes are bytes; the last byte of the address space is never present (no store can write it:
-   paged::Memory::store panics when `address + bytes` reaches 2^64) *)
+(* bytes are bytes, at 64-bit addresses *)
 Definition mem_ok_b (m : bmem) : bool :=
-  forallb (fun ab => (0 <=? snd ab) && (snd ab <? 256) && (0 <=? fst ab) && (fst ab <? USIZE - 1)) (bm_bytes m).
+  forallb (fun ab => (0 <=? snd ab) && (snd ab <? 256) && (0 <=? fst ab) && (fst ab <? USIZE)) (bm_bytes m).
 
 (* abstraction: the Sem state of an executor state *)
 Definition abs_env (sc : scalars) : senv := map (fun kv => ((fst kv, sv (fst kv)), snd kv)) sc.
@@ -85,20 +84,26 @@ End Names.
 
 (* ---------- dynamic side conditions, written on the Sem side ---------- *)
 
-(* the store at the current location reaches the top of the address space: a + bytes >= 2^64.
-   (Sem accepts a + bytes = 2^64 and answers EUnmapped beyond; paged memory panics in an
-   overflow-checked build and wraps in a release build: excluded, see notes/C07.md) *)
-Definition store_top (st : sstate) (o : operation) : bool :=
+(* the memory operation at the current location addresses a range that WRAPS: a + bytes > 2^64.
+   The property is silent there (Sem answers Unmapped; paged memory answers Err(Custom) for a store and,
+   for a load, None or -- when every byte up to 2^64-1 is present -- an overflow panic).  A range that
+   ENDS exactly at 2^64 is inside the theorems. *)
+Definition wraps (st : sstate) (o : operation) : bool :=
   match o with
   | OStore index src =>
       match den (st_env st) src, den (st_env st) index with
-      | Ok v, Ok i => (cval i <? ADDR_LIMIT) && (ADDR_LIMIT <=? cval i + cbits v / 8)
+      | Ok v, Ok i => (cval i <? ADDR_LIMIT) && (ADDR_LIMIT <? cval i + cbits v / 8)
       | _, _ => false
+      end
+  | OLoad dst index =>
+      match den (st_env st) index with
+      | Ok i => (cval i <? ADDR_LIMIT) && (ADDR_LIMIT <? cval i + sbits dst / 8)
+      | _ => false
       end
   | _ => false
   end.
 Definition top_at (f : func) (l : floc) (st : sstate) : bool :=
-  match loc_instruction f l with Some i => store_top st (i_op i) | None => false end.
+  match loc_instruction f l with Some i => wraps st (i_op i) | None => false end.
 
 (* no guard evaluates to one before the first guard that fails to evaluate *)
 Fixpoint none_before_error (f : func) (en : senv) (ls : list floc) : bool :=
